@@ -110,7 +110,7 @@ C["C17"] = dict(assumptions=["the resource manager's run loop is the real gorout
 ])
 C["C12"] = dict(assumptions=["marker bytes do not occur earlier in the stream (they are SHA-1 / RC4 output)", "net.Conn replaced by an in-memory connection"], harnesses=[
     H("ZZReadSync8", "internal/mse", "readSync with an 8-byte marker after 0..6 bytes of padding, any scan limit, none/one split/byte-by-byte fragmentation: found iff the marker ends within the limit; consumes exactly up to the marker", T(80, 900), T(80, 900)),
-    H("ZZReadSync20", "internal/mse", "20-byte marker after 0..10 bytes of padding", None, T(120, 1800, 4, 4)),
+    H("ZZReadSync20", "internal/mse", "20-byte marker after 0..10 bytes of padding", None, T(260, 1800, 4, 4)),
 ])
 
 C["C19"] = dict(assumptions=["torrent built by the real newTorrent and driven to Downloading through the real handlers; peer connected through the real startPeer with an in-memory connection", "messages sent to peers, DHT node additions and 'need more peers' signals are recorded (the peer writer, the DHT node and the announcer goroutines are not running)", "the decoded value of the private flag is the input (the three bencode decodings of parsePrivateField are outside the claim)"], harnesses=[
